@@ -41,7 +41,7 @@ def snapshot(det, d):
     return out
 
 
-def run_chunks(det, chunks, as_array=True, on_step=None):
+def run_chunks(det, chunks, as_array=True, on_step=None, final_flush=False):
     """Feed the chunks one call each.  Every chunk is handed over in an array of its own which is overwritten
     right after the call (the streaming pattern of reading each block into a buffer that is reused): a detector
     that keeps a view of the caller's array instead of a copy sees the overwritten data in its next call."""
@@ -49,7 +49,10 @@ def run_chunks(det, chunks, as_array=True, on_step=None):
     for k, c in enumerate(chunks):
         if as_array:
             buf = np.array(c, dtype=np.float64)
-            d.process(buf)
+            if final_flush and k == len(chunks) - 1:
+                d.process(buf, flush=True)
+            else:
+                d.process(buf)
             buf[0::2] = 9.5e5
             buf[1::2] = -9.5e5
         else:
